@@ -8,17 +8,20 @@ META = {
             "(bytecode model A2, every Go panic site an explicit outcome): vm_terminates (no jumps: at most one tick per instruction), compile_never_panics (the "
             "nil *Address of VisitExpr is never dereferenced), resolve_never_panics (ResolveResources/ResolveBalances on ANY compiled program, any variables, any "
             "store: no failed type assertion, no nil dereference — the compiler only stores addresses of earlier resources of the right type), "
-            "vm_never_panics_partial (VM.run of a compiled program of the fragment {send from account|overdraft|max|in-order sources to an account, save, "
-            "set_tx_meta, set_account_meta, print, fail}: no wrong-typed or empty pop, no BUMP out of range, no nil balance map or nil amount, stack empty at the "
-            "end, metadata renderable). Ties: the compiler+VM models equal the real ones on every generated case (bytecode equality, outcome incl. panic/no "
-            "panic), Spec vs compiler+VM with a recovered Go panic as an outcome, every compiled program run twice under a watchdog, the whole case list "
-            "executed again in the opposite order in a second process (an outcome that depends on the cases executed before it = state left behind; replay = "
-            "the earlier case + the case), a byte-level stream into the real parser (errors rendered).",
-    "note": "PARTIAL: vm_never_panics is proved for the fragment; for allotments and ordered destinations (MAKE_ALLOTMENT, ALLOC, BUMP n, kept) and for the ANTLR "
-            "parser, crash-freedom is observed on the sampled inputs (model and real VM agree on panic/no panic everywhere), not proved. Trusted: Lean kernel; "
-            "harness; watchdog timeout = hang.",
-    "technique": "Lean 4 proof (totality of Spec; typed resource tables, frame lemmas and stack discipline of the bytecode VM) + differential correspondence with "
-                 "panic as an outcome + crash/hang oracle",
+            "vm_never_panics (VM.run of ANY compiled program — the whole language: allotments on both sides, ordered destinations with max/remaining/kept, "
+            "send-all, save, metadata, print —, any variable map, any store: no wrong-typed or empty pop, no BUMP out of range, no nil balance map or nil "
+            "amount, stack empty at the end, metadata renderable; a corollary of C08.compile_correct: the VM's outcome is Spec.run's, which has no panic), "
+            "vm_never_panics_text (the same from the text: whatever the front-end model accepts, shorter than 2^64 characters), vm_never_panics_partial (the earlier "
+            "statement on a fragment, kept). Ties: the compiler+VM models equal the real ones on every generated case "
+            "(bytecode equality, outcome incl. panic/no panic), Spec vs compiler+VM with a recovered Go panic as an outcome, every compiled program run twice "
+            "under a watchdog, the whole case list executed again in the opposite order in a second process (an outcome that depends on the cases executed "
+            "before it = state left behind; replay = the earlier case + the case), a byte-level stream into the real parser (errors rendered).",
+    "note": "vm_never_panics has the side conditions of C08.compile_correct (at least one statement — Execute indexes Instructions[0] —, lists shorter than "
+            "2^64, no zero-denominator portion literal), none a restriction of the language. PARTIAL: the theorems are about the MODELS of compiler and VM "
+            "(tied to the Go code by the differentials, panic as an outcome); for the ANTLR parser crash-freedom is observed on the sampled inputs, not proved. "
+            "Trusted: Lean kernel; harness; watchdog timeout = hang.",
+    "technique": "Lean 4 proof (totality of Spec; typed resource tables; compiler correctness by frame lemmas, hence no reachable panic site of the bytecode VM) + "
+                 "differential correspondence with panic as an outcome + crash/hang oracle",
     "design_ref": "5 (C12)",
 }
 
@@ -30,8 +33,8 @@ def panic_kind(msg):
 
 def run(ctx):
     ctx.cov["trusted_base"] = TRUSTED + TRUSTED_A2
-    ctx.cov["partial"] = ("vm_never_panics proved for the fragment {send from account|overdraft|max|in-order sources to an account, save, metadata, print, fail}, "
-                           "resolve_never_panics and compile_never_panics for every program; allotments / ordered destinations and the ANTLR parser: observed only")
+    ctx.cov["partial"] = ("vm_never_panics, resolve_never_panics and compile_never_panics are proved for every program of the language, about the compiler and VM "
+                           "MODELS; that the models are the Go code (differentials) and the ANTLR parser's crash-freedom: observed only")
     ctx.l1()
     if run_syntax(ctx):  # front end (lexer+parser) on script texts; True = it served a --replay of one of its own cases
         return
